@@ -312,6 +312,50 @@ def main(chk):
         chk.violation(key, f'init creates {names} (the loop: [Aff_0, Aff_1]); apply on (Aff_0.w=2, Aff_1.w=5) returns {got}, the loop {want}', {})
     except Exception as e:
       chk.violation(key, f'raised {type(e).__name__}: {str(e)[:200]}', {})
+  # ---- a lifted class that receives two bound modules as dataclass attributes declared in non-alphabetical order (pre, post):
+  #      each attribute keeps its own variables under nn.scan / nn.vmap, as in the unrolled loop / the per-example call
+  class Two(nn.Module):
+    pre: nn.Module
+    post: nn.Module
+
+    @nn.compact
+    def __call__(self, c, x):
+      h = self.pre(c + x)
+      return self.post(h) - c, h
+
+  class TwoTop(nn.Module):
+    kind: str = 'loop'
+
+    @nn.compact
+    def __call__(self, xs):
+      pre, post = Aff(name='pre'), Aff(name='post')
+      c0 = jnp.zeros((), jnp.int32)
+      if self.kind == 'scan':
+        return nn.scan(Two, variable_broadcast='params', split_rngs={'params': False}, in_axes=0, out_axes=0)(pre, post, name='body')(c0, xs)
+      if self.kind == 'vmap':
+        return nn.vmap(Two, variable_axes={'params': None}, split_rngs={'params': False}, in_axes=(None, 0), out_axes=0)(pre, post, name='body')(c0, xs)
+      body = Two(pre, post, name='body')
+      if self.kind == 'per-example':
+        outs = [body(c0, x) for x in xs]
+        return jnp.stack([o[0] for o in outs]), jnp.stack([o[1] for o in outs])
+      c, hs = c0, []
+      for x in xs:
+        c, h = body(c, x)
+        hs.append(h)
+      return c, jnp.stack(hs)
+  xs2 = jnp.asarray([1, 2, 3], jnp.int32)
+  pv = {'params': {'pre': {'w': jnp.asarray(2, jnp.int32)}, 'post': {'w': jnp.asarray(7, jnp.int32)}}}
+  for kind, ref in (('scan', 'loop'), ('vmap', 'per-example')):
+    key = f'C06:module-attributes-declared-pre-post:{kind}'
+    chk.count(key)
+    try:
+      got = jax.tree_util.tree_map(lambda v: np.asarray(v).tolist(), TwoTop(kind).apply(pv, xs2))
+      want = jax.tree_util.tree_map(lambda v: np.asarray(v).tolist(), TwoTop(ref).apply(pv, xs2))
+      names = sorted(TwoTop(kind).init(jax.random.key(0), xs2)['params'])
+      if got != want or names != ['post', 'pre']:
+        chk.violation(key, f'nn.{kind} over a class with module attributes (pre.w=2, post.w=7) returns {got}, the {ref} {want}; init creates {names}', {})
+    except Exception as e:
+      chk.violation(key, f'raised {type(e).__name__}: {str(e)[:200]}', {})
   # ---- a carried variable owned by a setup-declared (grand)child: used before the loop, updated by nn.scan over the parent,
   #      used again afterwards - the scan must leave what the unrolled loop leaves, visible to the code after it
   class Cnt(nn.Module):
